@@ -508,7 +508,7 @@ def run(ctx):
             if kind == "slot_write":
                 continue
             idx = storage_subscript(node)
-            t = a.za.lin(idx)
+            t = a.za.lin_at(z, idx)
             n_sub += 1
             if f.name in UNCHECKED:
                 ctx.ok("R06.3", f, "unchecked-accessor:" + tag, "exempt: caller precondition (as std::vector::operator[]/front/back)", (f, node.get("ln")))
@@ -575,7 +575,7 @@ def run(ctx):
                 if kind == "bulk_write":
                     below = False
                 else:
-                    t = a.za.lin(storage_subscript(node))
+                    t = a.za.lin_at(z, storage_subscript(node))
                     below = t is not None and t[0] != Z and z.entails(t[0], "size_", -t[1] - 1)
                 fresh = any(sb in dom.get(b, ()) for sb in sblocks)
                 if not below and not fresh:
@@ -596,7 +596,7 @@ def run(ctx):
                 ctx.check(z.entails(Z, "size_", -1), "R06.4", f, "shrink-when-non-empty:" + tag, "size_ is decremented without `size_ >= 1` on that path (unsigned wrap-around)", (f, node.get("ln")))
         for (kind, node, z, b, e, extra) in a.events:
             if kind == "assign" and a.za.varname(ir.unwrap(node.get("l"))) == "size_" and not is_ctor and not is_assign:
-                t = a.za.lin(node.get("r"))
+                t = a.za.lin_at(z, node.get("r"))
                 # size_ = k : must stay within capacity
                 z2 = z.copy()
                 z2.assign("size_", t)
@@ -784,7 +784,7 @@ def run(ctx):
         a = FVAnalysis(ctx, f, cls)
         z0 = invariant(Zone())
         IN = a.run(z0)
-        t = a.za.lin(idx)
+        t = a.za.lin_at(z, idx)
         want_var = Z if role == "first" else "size_"
         ok = t is not None and t[1] == 0 and t[0] == want_var
         if t is not None and not ok and role == "last" and t[0] not in (Z,):
